@@ -450,6 +450,50 @@ theorem merge_matched_inner {S : Schema} (K : KeyOrderOn S P) {o : MergeOpts} {n
       · exact Or.inr (matchP_src_of_left K hsd htd hmd hmm hm)
       · exact Or.inl (by simp [h])
 
+/-! ### nothing but `create` acts where there is no instance -/
+
+theorem length_insertNode (S : Schema) (l : List DNode) (n : DNode) : (insertNode S l n).length = l.length + 1 := by
+  rw [insertNode_eq]
+  exact KL.insBefore_length
+
+theorem length_normL (l : List DNode) : (normL13 l).length = l.length := by rw [normL_eq_map13]; simp
+
+/-- a node cannot act on a place where there is no instance and leave none: the only operation that applies there is `create` -/
+theorem acts_none_ne_none {S : Schema} (K : KeyOrderOn S P) {inh : Option Op} {c : DNode} {e' : Option DNode} (hd : Dom S P c)
+    (h : Acts S P fx inh c none e') {X : List DNode} (hgX : goodT S P X = true) (hkb : KeysBelow S c X)
+    (hl : look S X c = none) : e' ≠ none := by
+  rintro rfl
+  obtain ⟨X', ha, hgX', _, hloc, hval⟩ := h c.height false X (Nat.le_refl _) hgX hkb (by rw [hl]; rfl)
+  have hl' : look S X' c = none := look_none_of_norm hval
+  have hnorm : normL13 X' = normL13 X := by
+    apply normL_eq_of_look K (goodT_goodL hgX') (goodT_goodL hgX)
+    intro q hq
+    cases hcq : matchP S c q
+    · rw [hloc q hq hcq]
+    · rw [← look_congr K (goodT_goodL hgX') hd hq hcq, ← look_congr K (goodT_goodL hgX) hd hq hcq, hl', hl]
+  have hlen : X'.length = X.length := by rw [← length_normL X', hnorm, length_normL]
+  have hf : findForApply S X c = none := look_none_iff_findIdx.mp hl
+  obtain ⟨k, hk⟩ : ∃ k, c.height = k + 1 := ⟨c.height - 1, by have := height_pos13 c; omega⟩
+  rw [hk, applyNode_succ_nuo hd.nuo] at ha
+  cases hop : effOp c inh with
+  | none => simp [hop] at ha
+  | some op =>
+    cases op with
+    | none => simp [hop, hf] at ha
+    | delete => simp [hop, hf] at ha
+    | replace =>
+      simp only [hop, hf] at ha
+      split at ha <;> simp at ha
+    | create =>
+      simp only [hop] at ha
+      cases hk' : applyF S fx k true (childInhOf c inh) (noKeys S c.kids) (dupSingle S c).kids with
+      | error e => simp [hk', Except.bind] at ha
+      | ok ks =>
+        simp only [hk', Except.bind, Except.ok.injEq] at ha
+        rw [← ha, length_insertNode] at hlen
+        omega
+
+
 /-! ### good sibling lists: the keys come first and belong to earlier schema nodes; different members are different instances -/
 
 theorem good_keys_lt {S : Schema} (K : KeyOrderOn S P) {l : List DNode} (hg : goodT S P l = true) :
@@ -1042,6 +1086,374 @@ theorem merge_matched_inner_nd {S : Schema} (K : KeyOrderOn S P) {o : MergeOpts}
     · exact Or.inr (matchP_src_of_left K hsd htd hmd hmm hm)
     · exact Or.inl (by simp [h])
 
+/-! ### an inner node created by the first diff and deleted by the second -/
+
+theorem keysOf_keysOf (S : Schema) (l : List DNode) : keysOf S (keysOf S l) = keysOf S l := by
+  unfold keysOf
+  induction l with
+  | nil => rfl
+  | cons x xs ih =>
+    simp only [List.takeWhile_cons]
+    split
+    · rename_i h; simp only [List.takeWhile_cons, h, ↓reduceIte, ih]
+    · rfl
+
+theorem goodT_keysOf {S : Schema} (K : KeyOrderOn S P) {l : List DNode} (hg : goodT S P l = true) :
+    goodT S P (keysOf S l) = true := by
+  have hs := (goodL_iff K).mp (goodT_goodL hg)
+  have hsub : (keysOf S l).Sublist l := List.takeWhile_sublist _
+  unfold goodT
+  rw [Bool.and_eq_true]
+  refine ⟨(goodL_iff K).mpr ⟨hs.1.sublist hsub, fun x hx => hs.2 x (hsub.subset hx)⟩, ?_⟩
+  simp [keysLead, noKeys_keysOf]
+
+/-- a node of a schema node that is not a list key finds nothing among key leaves -/
+theorem look_keys_none {S : Schema} {l : List DNode} {q : DNode} (hq : S.isKey q.sid = false) : look S (keysOf S l) q = none := by
+  rw [look, List.find?_eq_none]
+  intro k hk
+  have hkk := mem_keysOf_isKey hk
+  have : (k.sid == q.sid) = false := by
+    rw [beq_eq_false_iff_ne]; intro h; rw [h, hq] at hkk; cases hkk
+  simp [matchP, this]
+
+/-- a key leaf is found among the keys in front -/
+theorem look_key_front {S : Schema} {l : List DNode} {q : DNode} (hl : keysLead S l = true) (hq : S.isKey q.sid = true) :
+    look S l q = look S (keysOf S l) q := by
+  conv => lhs; rw [← keysOf_append_noKeys S l]
+  rw [look, List.find?_append]
+  have : (noKeys S l).find? (matchP S q) = none := by
+    rw [List.find?_eq_none]
+    intro c hc
+    have hck := mem_noKeys_notKey hl hc
+    have : (c.sid == q.sid) = false := by
+      rw [beq_eq_false_iff_ne]; intro h; rw [h, hq] at hck; cases hck
+    simp [matchP, this]
+  rw [this]
+  simp [look]
+
+/-- two good lists with the same observation: a node (not a key) that no member of the second list after the keys addresses finds
+nothing in the first -/
+theorem look_nonkey_none {S : Schema} (K : KeyOrderOn S P) {A B : List DNode} (hgB : goodT S P B = true)
+    (hAB : normL13 A = normL13 B) {q : DNode} (hq : Dom S P q) (hqk : S.isKey q.sid = false)
+    (hall : ∀ b ∈ noKeys S B, matchP S b q = false) : look S A q = none := by
+  cases hA : look S A q with
+  | none => rfl
+  | some a =>
+    exfalso
+    have h1 : (look S B q).map normN = (look S A q).map normN := (look_norm_congr hAB q).symm
+    rw [hA] at h1
+    obtain ⟨b, hb, _⟩ := look_some_of_norm h1
+    obtain ⟨hbm, hqb⟩ := look_mem hb
+    have hbd : Dom S P b := goodN_dom (goodL_mem (goodT_goodL hgB) hbm)
+    have hbs : b.sid = q.sid := matchP_sid hqb
+    have hbn : b ∈ noKeys S B := by
+      rw [← keysOf_append_noKeys S B] at hbm
+      rcases List.mem_append.mp hbm with h | h
+      · have := mem_keysOf_isKey h
+        rw [hbs, hqk] at this; cases this
+      · exact h
+    have := hall b hbn
+    rw [matchP_symm K hbd hq, hqb] at this
+    cases this
+
+theorem changeOp_of_plain {c : DNode} (hp : plainN c = true) (op : Op) : changeOp c op = c.setMetas [("operation", bs op.str)] := by
+  simp [changeOp, plainN_metas hp, eraseMeta]
+
+/-- the copy of a plain good subtree with `create` made explicit is exact where there is no instance -/
+theorem exactE_created {S : Schema} (K : KeyOrderOn S P) {c : DNode} (inh : Option Op) (hg : goodN S P c = true) (hp : plainN c = true)
+    (hk : S.isKey c.sid = false) : exactE S P inh none (changeOp c .create) = true := by
+  have hd : domB S P (changeOp c .create) = true := domB_iff.mpr (dom_changeOp K (goodN_dom hg) .create)
+  have hm : metaOKB (changeOp c .create) = true := by rw [changeOp_of_plain hp]; cases c <;> simp [metaOKB, DNode.setMetas, DNode.metas]
+  have ho : effOp (changeOp c .create) inh = some .create := by
+    rw [changeOp_of_plain hp]
+    exact effOp_own' (ownOp_of_metas _ .create (by cases c <;> rfl)) inh
+  rw [changeOp_of_plain hp] at hd hm ho ⊢
+  cases c with
+  | term s f m v =>
+    simp only [DNode.setMetas] at hd hm ho ⊢
+    simp only [exactE, hd, hm, ho, Bool.and_eq_true, Bool.true_and, Bool.and_true]
+    simpa [DNode.sid] using hk
+  | inner s f m ks =>
+    simp only [DNode.setMetas] at hd hm ho ⊢
+    have hgk : goodT S P ks = true := goodN_kidsT hg
+    have hpk : plainL ks = true := by simpa [DNode.kids] using plainN_kids hp
+    simp only [exactE, hd, hm, ho, hgk, hpk, Bool.and_eq_true, Bool.true_and, Bool.and_true]
+    simpa [DNode.sid] using hk
+
+theorem matchP_changeOp_both {S : Schema} {a : DNode} (ha : S.isDupInst a.sid = false) (b : DNode) (op : Op) :
+    matchP S (changeOp a op) (changeOp b op) = matchP S a b := by
+  rw [matchP_changeOp, matchP_of_same_data_right (x := b) ha (by simp) (by simp) (by simp)]
+
+/-- an inner node CREATED by the first diff meets a `delete` of the whole instance by the second: nothing is left -/
+theorem merge_matched_inner_cd {S : Schema} (K : KeyOrderOn S P) {o : MergeOpts} {n : Nat} {hp : Bool} {cur sin : Option Op}
+    {s : Nat} {f : Flags} {ms : List Meta} {ks : List DNode} {t : DNode}
+    {kp pre rest L Y : List DNode} {E : DNode → Option DNode} (IH : ListMergeSpec S P fx o ks)
+    (hh : (DNode.inner s f ms ks).height ≤ n) (hgL : goodT S P L = true) (hgY : goodT S P Y = true)
+    (hkp : ∀ k ∈ kp, S.isKey k.sid = true ∧ k.sid < s)
+    (hT : TInv S P fx cur (pre ++ t :: rest) L E) (hR : Rel S P (pre ++ t :: rest) L E Y)
+    (hpre : ∀ a ∈ pre, matchP S (.inner s f ms ks) a = false) (hm : matchP S (.inner s f ms ks) t = true)
+    (hO : Orig S P cur L t) (hsafe : safeP S cur sin t (.inner s f ms ks) = true)
+    (hcop : effOp t cur = some .create) (hsop : effOp (.inner s f ms ks) sin = some .delete)
+    (hsex : exactE S P sin (look S Y (.inner s f ms ks)) (.inner s f ms ks) = true)
+    (hkb : KeysBelow S (.inner s f ms ks) Y) :
+    MergeConcl S P fx o n hp cur sin (.inner s f ms ks) kp (pre ++ t :: rest) L Y := by
+  obtain ⟨htex, hlt, hown⟩ := hO
+  obtain ⟨hsd, _, hsk⟩ := exactE_base hsex
+  obtain ⟨htd, htm, htk⟩ := exactE_base htex
+  simp only [safeP, Bool.and_eq_true, Bool.not_eq_eq_eq_not, Bool.not_true] at hsafe
+  obtain ⟨⟨⟨htnt, _⟩, hkord⟩, hsafeK⟩ := hsafe
+  cases t with
+  | term => simp [DNode.isTerm] at htnt
+  | inner st ft mt kt =>
+  have hss : st = s := matchP_sid hm
+  subst hss
+  have hot : ownOp (DNode.inner st ft mt kt) = some .create := hown .create hcop (Or.inr (by decide))
+  have hmt : mt = [("operation", bs "create")] := by
+    simp only [litN, Bool.and_eq_true, litInner, Bool.or_eq_true, beq_iff_eq] at hlt
+    rcases hlt.1 with ((h | h) | h) | h
+    · subst h; simp [ownOp, getMeta, DNode.metas] at hot
+    · subst h; simp [ownOp, getMeta, DNode.metas, ofBytes_none] at hot
+    · exact h
+    · subst h; simp [ownOp, getMeta, DNode.metas, ofBytes_delete] at hot
+  subst hmt
+  obtain ⟨hx0, hplt, hgkt⟩ := exactE_create htex hcop
+  obtain ⟨y, hy, hdq, hpl, hgks⟩ := exactE_delete hsex hsop
+  simp only [DNode.kids] at hplt hgkt hpl hgks
+  obtain ⟨hgy, hys⟩ := good_look hgY y hy
+  have hgyk := goodN_kidsT hgy
+  have hyt : y.isTerm = false := by rw [(goodN_dom hgy).typed, hys, ← hsd.typed]; rfl
+  have hmem : DNode.inner st ft [("operation", bs "create")] kt ∈ pre ++ DNode.inner st ft [("operation", bs "create")] kt :: rest := by
+    simp
+  have hperm : (pre ++ DNode.inner st ft [("operation", bs "create")] kt :: rest).Perm
+      (DNode.inner st ft [("operation", bs "create")] kt :: (pre ++ rest)) := List.perm_middle
+  have hT1 := hT.perm hperm
+  have hR1 := hR.perm hperm
+  have hcur' : childInhOf (.inner st ft [("operation", bs "create")] kt) cur = some .create :=
+    childInh_of_own _ .create cur hot (by decide)
+  have hsin' : childInhOf (.inner st f ms ks) sin = some .delete := childInh_delete hsop
+  rw [hcur', hsin'] at hsafeK
+  simp only [DNode.kids] at hsafeK hkord
+  -- what the target node makes of the (absent) instance, and what the second tree has there
+  have hEt : E (.inner st ft [("operation", bs "create")] kt) = some (normN (.inner st ft [("operation", bs "create")] kt)) :=
+    Acts.det (hT.acts _ hmem) (by rw [hx0]; exact acts_create K (by rw [← hx0]; exact htex) hcop) hgL (hT.kb _ hmem) rfl
+  have hlY : look S Y (.inner st f ms ks) = look S Y (.inner st ft [("operation", bs "create")] kt) :=
+    look_congr K (goodT_goodL hgY) hsd htd hm
+  have hykt : normL13 y.kids = normL13 kt := by
+    have h1 := hR.on _ hmem
+    rw [← hlY, hy, hEt] at h1
+    simp only [Option.map_some, Option.some.injEq, normN_inner_form hyt, normN, DNode.inner.injEq] at h1
+    exact h1.2.2.2
+  have hn : normL13 y.kids = normL13 ks := by
+    have h1 := (dataEq_iff_norm y (.inner st f ms ks)).mp hdq
+    rw [normN_inner_form hyt] at h1
+    simp only [normN, DNode.inner.injEq] at h1
+    exact h1.2.2.2
+  -- the children of the created subtree, `create` made explicit, on the keys of the instance
+  let Tk : List DNode := (noKeys S kt).map fun c => changeOp c .create
+  let L' : List DNode := keysOf S y.kids
+  have hgL' : goodT S P L' = true := goodT_keysOf K hgyk
+  have hleadt : keysLead S kt = true := goodT_lead hgkt
+  have hkid : ∀ c ∈ noKeys S kt, c ∈ kt ∧ goodN S P c = true ∧ plainN c = true ∧ S.isKey c.sid = false := by
+    intro c hc
+    have hcm : c ∈ kt := (noKeys_sublist S kt).subset hc
+    exact ⟨hcm, goodL_mem (goodT_goodL hgkt) hcm, plainL_mem hplt hcm, mem_noKeys_notKey hleadt hc⟩
+  obtain ⟨hko, hno⟩ := split_keys (S := S) (kp := keysOf S kt) (M := Tk) (keysOf_all_key S kt)
+    (by
+      intro m hm
+      obtain ⟨c, hc, rfl⟩ := List.mem_map.mp hm
+      simpa using (hkid c hc).2.2.2)
+  have hdkT : dk S true (keysOf S kt ++ Tk) = Tk := by simp only [dk, ↓reduceIte, hno]
+  have hlookL' : ∀ c ∈ noKeys S kt, look S L' (changeOp c .create) = none := fun c hc =>
+    look_keys_none (by simpa using (hkid c hc).2.2.2)
+  have hexTk : exactK S P (some .none) L' true (keysOf S kt ++ Tk) = true := by
+    apply exactK_intro true
+    · rw [hdkT]
+      intro tk htk
+      obtain ⟨c, hc, rfl⟩ := List.mem_map.mp htk
+      obtain ⟨_, hgc, hpc, hck⟩ := hkid c hc
+      refine ⟨by rw [hlookL' c hc]; exact exactE_created K _ hgc hpc hck, ?_⟩
+      intro k hk
+      rw [keysOf_keysOf] at hk
+      have h1 : KeysBelow S c kt := fun k' hk' => good_keys_lt K hgkt k' hk' c hc
+      have := keysBelow_congr hykt h1 k hk
+      simpa using this
+    · rw [hdkT]
+      rw [List.pairwise_map]
+      refine (List.Pairwise.and_mem.mp ((good_pairwise K (goodT_goodL hgkt)).sublist (noKeys_sublist S kt))).imp ?_
+      rintro a b ⟨ha, _, hab, _⟩
+      rw [matchP_changeOp_both (goodN_dom (goodL_mem (goodT_goodL hgkt) ((noKeys_sublist S kt).subset ha))).ndi]
+      exact hab
+  obtain ⟨Ek, _, hTk, _, _⟩ := kids_inv (fx := fx) K hgL' hexTk
+  rw [hno] at hTk
+  have hEk : ∀ c ∈ noKeys S kt, Ek (changeOp c .create) = some (normN c) := by
+    intro c hc
+    obtain ⟨_, hgc, hpc, hck⟩ := hkid c hc
+    have htkm : changeOp c .create ∈ Tk := List.mem_map_of_mem hc
+    have h1 := hTk.acts _ htkm
+    rw [hlookL' c hc] at h1
+    have h2 := acts_create (fx := fx) K (exactE_created K (some .none) hgc hpc hck)
+      (effOp_changeOp (by simp [MetaOK, plainN_metas hpc]) .create)
+    have := Acts.det h1 h2 hgL' (hTk.kb _ htkm) (by rw [hlookL' c hc])
+    rw [this, normN_changeOp]
+  have hRk : Rel S P Tk L' Ek y.kids := by
+    refine ⟨?_, ?_⟩
+    · intro tk htk
+      obtain ⟨c, hc, rfl⟩ := List.mem_map.mp htk
+      rw [hEk c hc, look_congr_fun (fun z => matchP_changeOp S c z .create), look_norm_congr hykt,
+        look_self K (goodT_goodL hgkt) (hkid c hc).1]
+      rfl
+    · intro q hq hall
+      cases hqk : S.isKey q.sid
+      · have hall' : ∀ b ∈ noKeys S kt, matchP S b q = false := fun b hb => by
+          rw [← matchP_changeOp S b q .create]; exact hall _ (List.mem_map_of_mem hb)
+        rw [look_nonkey_none K hgkt hykt hq hqk hall', look_keys_none hqk]
+      · rw [look_key_front (goodT_lead hgyk) hqk]
+  have hkYk : ∀ c, KeysBelow S c y.kids → KeysBelow S c L' := by
+    intro c h k hk
+    rw [keysOf_keysOf] at hk
+    exact h k hk
+  -- the induction hypothesis: the children of the deleted subtree into the (explicitly created) children of the target node
+  obtain ⟨k, rfl⟩ : ∃ k, n = k + 1 := ⟨n - 1, by have := height_pos13 (DNode.inner st f ms ks); omega⟩
+  have hks : heightL ks ≤ k := height_inner_le hh
+  have hdk : dk S true ks = noKeys S ks := by simp [dk]
+  have hexks : exactK S P (some .delete) y.kids true ks = true := exactK_plain_delete K hgks hpl hn
+  obtain ⟨Mk, Ek', Yk', hmk, hYk', hgYk', _, hTk', hRk'⟩ := IH k true (some .none) (some .delete) true (keysOf S kt) Tk L' y.kids Ek
+    (Or.inr rfl) hks hgL' hgyk hkYk
+    (by
+      intro kk hkk
+      refine ⟨keysOf_all_key S kt kk hkk, ?_⟩
+      intro c hc
+      rw [hdk] at hc
+      have := List.all_eq_true.mp (List.all_eq_true.mp hkord kk hkk) c hc
+      simpa using this)
+    hTk hRk
+    (by
+      intro c hc tk htk hmc
+      rw [hdk] at hc
+      obtain ⟨c0, hc0, rfl⟩ := List.mem_map.mp htk
+      obtain ⟨_, hgc, hpc, hck⟩ := hkid c0 hc0
+      have hcd : Dom S P c := (exactE_base (exactK_mem true ks hexks c (by rw [hdk]; exact hc)).1).1
+      have hmok : MetaOK c0 := by simp [MetaOK, plainN_metas hpc]
+      have hown0 : ownOp (changeOp c0 .create) = some .create := ownOp_changeOp hmok .create
+      refine ⟨⟨by rw [hlookL' c0 hc0]; exact exactE_created K _ hgc hpc hck, ?_, ?_⟩, ?_⟩
+      · rw [changeOp_of_plain hpc]
+        cases c0 with
+        | term s' f' m' v' => simp [DNode.setMetas, litN, litMeta, Op.str]
+        | inner s' f' m' k' =>
+          have hpk : plainL k' = true := by simpa [DNode.kids] using plainN_kids hpc
+          simp [DNode.setMetas, litN, litInner, Op.str, litL_of_plain k' hpk]
+      · intro op hop _
+        rw [effOp_own' hown0] at hop
+        rw [hown0, Option.some.inj hop]
+      · rw [safeP_congr (t := c0) (cur1 := some .create) (by simp) ?_ ?_ (by simp)]
+        · exact safeK_mem hsafeK c ((noKeys_sublist S ks).subset hc) c0 hc0
+            (by rw [← matchP_of_same_data_right (x' := changeOp c0 .create) (x := c0) hcd.ndi (by simp) (by simp) (by simp)]; exact hmc)
+        · rw [effOp_own' hown0]; simp [effOp, plainN_ownOp hpc]
+        · intro _
+          rw [childInh_of_own _ .create _ hown0 (by decide)]
+          simp [childInhOf, plainN_ownOp hpc])
+    hexks (litL_of_plain ks hpl)
+  rw [hdk] at hYk'
+  -- nothing is left below the target node
+  have hMk : Mk = [] := by
+    cases hMe : Mk with
+    | nil => rfl
+    | cons m Mr =>
+      exfalso
+      have hmm : m ∈ Mk := by rw [hMe]; simp
+      have hmd := hTk'.lvl.dom m hmm
+      have hmk' := hTk'.lvl.nokey m hmm
+      have hlm : look S L' m = none := look_keys_none hmk'
+      have hne := acts_none_ne_none K hmd (by have := hTk'.acts m hmm; rwa [hlm] at this) hgL' (hTk'.kb m hmm) hlm
+      have hon := hRk'.on m hmm
+      -- what the deleted subtree's children make of `y.kids`: no instance after the keys is left
+      obtain ⟨Eks, hEks⟩ := exactK_acts (fx := fx) (nodesFwd K ks) hgyk hexks
+      obtain ⟨Z, hZ, hgZ, _, hlocZ, hvalZ⟩ := exactK_apply (fx := fx) (n := k) (hp := true) K hgyk hexks hEks
+        (by rw [hdk]; exact Nat.le_trans (heightL_noKeys_le S ks) hks) hgyk rfl
+      rw [hdk] at hZ hlocZ hvalZ hEks
+      rw [hYk'] at hZ
+      cases hZ
+      have hnone : look S Yk' m = none := by
+        by_cases hex : ∃ c ∈ noKeys S ks, matchP S c m = true
+        · obtain ⟨c, hc, hcm⟩ := hex
+          have hce := exactK_mem true ks hexks c (by rw [hdk]; exact hc)
+          obtain ⟨hcd, _, hck⟩ := exactE_base hce.1
+          have hop : effOp c (some .delete) = some .delete := by
+            simp [effOp, plainN_ownOp (plainL_mem hpl ((noKeys_sublist S ks).subset hc))]
+          obtain ⟨yc, hyc, _⟩ := exactE_delete hce.1 hop
+          have h1 := hEks c hc
+          rw [hyc] at h1
+          have h2 := acts_delete (fx := fx) (y := normN yc) K hcd hck hop
+          have h3 := Acts.det h1 h2 hgyk hce.2 (by rw [hyc])
+          have h4 := hvalZ c hc
+          rw [h3] at h4
+          rw [← look_congr K (goodT_goodL hgZ) hcd hmd hcm]
+          exact look_none_of_norm h4
+        · have hall : ∀ c ∈ noKeys S ks, matchP S c m = false := by
+            intro c hc
+            cases h : matchP S c m
+            · rfl
+            · exact absurd ⟨c, hc, h⟩ hex
+          rw [hlocZ m hmd hall]
+          exact look_nonkey_none K hgks hn hmd hmk' hall
+      rw [hnone] at hon
+      exact hne hon.symm
+  subst hMk
+  -- the source node on `Y`: the instance is deleted
+  obtain ⟨Y', hY', hgY', hkY', hloc, hval⟩ := acts_delete (fx := fx) (y := normN y) K hsd hsk hsop (k + 1) hp Y hh hgY hkb
+    (by rw [hy]; rfl)
+  -- the cell `delete` on `create`, the recursion, and the node is dropped
+  have hndi : S.isDupInst st = false := htd.ndi
+  have hSt : S.isTerm st = false := by have := hsd.typed; simpa [DNode.isTerm, DNode.sid] using this.symm
+  have hsame : sameInst S (.inner st ft [("operation", bs "create")] kt) (.inner st f ms ks) = true :=
+    sameInst_of_matchP_inner hsd rfl hm
+  let t1 : DNode := .inner st ft [("operation", bs "none")] (keysOf S kt ++ Tk)
+  have hcell : mergeCell S o .delete (.inner st ft [("operation", bs "create")] kt) .create (.inner st f ms ks) = .ok (t1, false) := by
+    show (mergeDelete S _ .create _).map (·, false) = _
+    rw [mergeDelete_create_inner S st ft kt _ hsame hndi hSt]
+    · rfl
+    · intro c hc
+      obtain ⟨hcm, _, hpc, _⟩ := hkid c hc
+      refine ⟨by simp [getMeta, plainN_metas hpc], ?_⟩
+      show (findForApply S ks c).isSome = true
+      cases hf : findForApply S ks c with
+      | some i => rfl
+      | none =>
+        exfalso
+        have h1 := look_none_iff_findIdx.mpr hf
+        have h2 : (look S ks c).map normN = (look S kt c).map normN := by
+          rw [← look_norm_congr hn, look_norm_congr hykt]
+        rw [h1, look_self K (goodT_goodL hgkt) hcm] at h2
+        cases h2
+  have hown1 : ownOp t1 = some .none := ownOp_of_metas t1 .none rfl
+  have hkids : (fun (c' s' : Option Op) (tk : List DNode) =>
+      if (DNode.inner st f ms ks).isTerm then Except.ok tk else mergeKids S o c' s' true (DNode.inner st f ms ks).kids tk)
+      (childInhOf t1 cur) (childInhOf (.inner st f ms ks) sin) t1.kids = .ok (keysOf S kt ++ []) := by
+    simp only [DNode.isTerm, Bool.false_eq_true, ↓reduceIte, pj_kids_inner, hsin',
+      childInh_of_own t1 .none cur hown1 (by decide)]
+    exact hmk
+  have hred : (isRedundant S cur (t1.setKids (keysOf S kt ++ []))).2 = true := by
+    have hs : t1.setKids (keysOf S kt ++ []) = .inner st ft [("operation", bs "none")] (keysOf S kt ++ []) := rfl
+    rw [hs]
+    exact redundant_none_nokids S cur _ (effOp_own' (ownOp_of_metas _ .none rfl) cur) hSt
+      (by simp [DNode.kids, noKeys_keysOf])
+  have hpre' : ∀ a ∈ kp ++ pre, matchP S (.inner st f ms ks) a = false := by
+    intro a ha
+    rcases List.mem_append.mp ha with ha | ha
+    · exact matchP_key_lt (hkp a ha).2
+    · exact hpre a ha
+  have hassoc : kp ++ (pre ++ DNode.inner st ft [("operation", bs "create")] kt :: rest) =
+      (kp ++ pre) ++ DNode.inner st ft [("operation", bs "create")] kt :: rest := by simp
+  have hstep := mergeStep_cancel S o cur sin (.inner st f ms ks) (.inner st ft [("operation", bs "create")] kt) t1 (kp ++ pre) rest
+    (keysOf S kt ++ []) .delete .create
+    (fun c' s' tk => if (DNode.inner st f ms ks).isTerm then Except.ok tk
+      else mergeKids S o c' s' true (DNode.inner st f ms ks).kids tk)
+    hsop hcop hpre' hm hndi hndi hcell hkids hred
+  rw [← mergeR_eq, ← hassoc] at hstep
+  obtain ⟨hT2, hR2⟩ := tinv_drop K hT1 hR1 hgL hsd hm hloc (by rw [hval, hx0]; rfl) hgY'
+  exact ⟨pre ++ rest, E, Y', by rw [hstep]; simp, hY', hgY', hkY', hloc, hT2, hR2,
+    fun z hz => Or.inl (by rcases List.mem_append.mp hz with h | h <;> simp [h])⟩
+
 /-! ### the induction over the source diff -/
 
 theorem listMerge_nil (S : Schema) (o : MergeOpts) : ListMergeSpec S P fx o [] := by
@@ -1126,7 +1538,9 @@ theorem nodeMerge {S : Schema} (K : KeyOrderOn S P) {o : MergeOpts}
     | some t =>
       obtain ⟨hm, pre, rest, rfl, hpre⟩ := List.find?_eq_some_iff_append.mp hfind
       obtain ⟨hO, hsafe⟩ := hmeet t (by simp) hm
-      have hops : effOp t cur = some .none ∧ effOp (DNode.inner s f ms ks) sin = some .none := by
+      have hops : (effOp t cur = some .none ∧ effOp (DNode.inner s f ms ks) sin = some .none) ∨
+          (effOp t cur = some .none ∧ effOp (DNode.inner s f ms ks) sin = some .delete) ∨
+          (effOp t cur = some .create ∧ effOp (DNode.inner s f ms ks) sin = some .delete) := by
         have h := hsafe
         simp only [safeP, Bool.and_eq_true] at h
         have h2 := h.1.1.2
@@ -1134,8 +1548,13 @@ theorem nodeMerge {S : Schema} (K : KeyOrderOn S P) {o : MergeOpts}
         cases effOp t cur <;> cases effOp (DNode.inner s f ms ks) sin <;> simp [meetOps]
         rename_i a b
         cases a <;> cases b <;> simp [meetOps]
-      exact merge_matched_inner K (listMerge K hq ks) hh hgL hgY hkp hT hR
-        (fun a ha => by simpa using hpre a ha) hm hO hsafe hops.1 hops.2 hsex hls hkb
+      rcases hops with ⟨h1, h2⟩ | ⟨h1, h2⟩ | ⟨h1, h2⟩
+      · exact merge_matched_inner K (listMerge K hq ks) hh hgL hgY hkp hT hR
+          (fun a ha => by simpa using hpre a ha) hm hO hsafe h1 h2 hsex hls hkb
+      · exact merge_matched_inner_nd K (listMerge K hq ks) hh hgL hgY hkp hT hR
+          (fun a ha => by simpa using hpre a ha) hm hO hsafe h1 h2 hsex hkb
+      · exact merge_matched_inner_cd K (listMerge K hq ks) hh hgL hgY hkp hT hR
+          (fun a ha => by simpa using hpre a ha) hm hO hsafe h1 h2 hsex hkb
   | .term s f ms v => by
     intro n hp cur sin kp Tb L Y E hsin hh hgL hgY hkY hkp hT hR hmeet hsex hls hkb
     cases hfind : Tb.find? (matchP S (.term s f ms v)) with
@@ -1196,48 +1615,5 @@ theorem merge_apply_exact {S : Schema} (K : KeyOrderOn S P) {o : MergeOpts}
   obtain ⟨C'', hC'', hgC'', _, hoff, hon⟩ := hT'.apply (n := heightL M + 1) (hp := false) K (Nat.le_succ _) hA rfl
   refine ⟨M, C', C'', hm, by rw [apply_eq_applyF]; exact hC'', by rw [apply_eq_applyF]; exact ha, ?_⟩
   exact Rel.result K hT'.lvl hR' hgC' rfl hgC'' hoff hon
-
-/-! ### towards the cells with inherited operations (OPEN): nothing but `create` acts where there is no instance -/
-
-theorem length_insertNode (S : Schema) (l : List DNode) (n : DNode) : (insertNode S l n).length = l.length + 1 := by
-  rw [insertNode_eq]
-  exact KL.insBefore_length
-
-theorem length_normL (l : List DNode) : (normL13 l).length = l.length := by rw [normL_eq_map13]; simp
-
-/-- a node cannot act on a place where there is no instance and leave none: the only operation that applies there is `create` -/
-theorem acts_none_ne_none {S : Schema} (K : KeyOrderOn S P) {inh : Option Op} {c : DNode} {e' : Option DNode} (hd : Dom S P c)
-    (h : Acts S P fx inh c none e') {X : List DNode} (hgX : goodT S P X = true) (hkb : KeysBelow S c X)
-    (hl : look S X c = none) : e' ≠ none := by
-  rintro rfl
-  obtain ⟨X', ha, hgX', _, hloc, hval⟩ := h c.height false X (Nat.le_refl _) hgX hkb (by rw [hl]; rfl)
-  have hl' : look S X' c = none := look_none_of_norm hval
-  have hnorm : normL13 X' = normL13 X := by
-    apply normL_eq_of_look K (goodT_goodL hgX') (goodT_goodL hgX)
-    intro q hq
-    cases hcq : matchP S c q
-    · rw [hloc q hq hcq]
-    · rw [← look_congr K (goodT_goodL hgX') hd hq hcq, ← look_congr K (goodT_goodL hgX) hd hq hcq, hl', hl]
-  have hlen : X'.length = X.length := by rw [← length_normL X', hnorm, length_normL]
-  have hf : findForApply S X c = none := look_none_iff_findIdx.mp hl
-  obtain ⟨k, hk⟩ : ∃ k, c.height = k + 1 := ⟨c.height - 1, by have := height_pos13 c; omega⟩
-  rw [hk, applyNode_succ_nuo hd.nuo] at ha
-  cases hop : effOp c inh with
-  | none => simp [hop] at ha
-  | some op =>
-    cases op with
-    | none => simp [hop, hf] at ha
-    | delete => simp [hop, hf] at ha
-    | replace =>
-      simp only [hop, hf] at ha
-      split at ha <;> simp at ha
-    | create =>
-      simp only [hop] at ha
-      cases hk' : applyF S fx k true (childInhOf c inh) (noKeys S c.kids) (dupSingle S c).kids with
-      | error e => simp [hk', Except.bind] at ha
-      | ok ks =>
-        simp only [hk', Except.bind, Except.ok.injEq] at ha
-        rw [← ha, length_insertNode] at hlen
-        omega
 
 end LyModel.Diff.K13
